@@ -4,7 +4,7 @@ import Arimaa.Lemmas.RsAgreeBoard
 Agreement of the regenerated model with the hand model: `transposition_hash`.
 -/
 namespace Arimaa.RsAgree
-open Arimaa Arimaa.Gen Arimaa.Gen.Rs Arimaa.Rt
+open Arimaa Arimaa.Gen Arimaa.Gen.RsBase Arimaa.Rt
 
 theorem transposition_hash_eq (s : GameState) :
     GameState_transposition_hash s = Res.guard s.transpositionHashPanics s.transpositionHash := by
